@@ -29,9 +29,9 @@ func genC01(ctx *fw.Ctx) []fw.Case {
 	var cases []fw.Case
 	srcs := corpus.AtomSources()
 	srcs = append(srcs, corpus.RepoTestdata()...)
-	srcs = append(srcs, corpus.StressSources(ctx.Rand("stress"), ctx.Pick(40, 500), 10, 400)...)
+	srcs = append(srcs, corpus.StressSources(ctx.Rand("stress"), ctx.Pick(120, 1500), 10, 400)...)
 	srcs = append(srcs, corpus.ClangSources(ctx.Thorough())...)
-	srcs = append(srcs, mgenSources(ctx, ctx.Pick(200, 4000))...)
+	srcs = append(srcs, mgenSources(ctx, ctx.Pick(600, 12000))...)
 	for _, s := range srcs {
 		s := s
 		cases = append(cases, fw.Case{ID: s.ID, Run: func(r *fw.Rec) { c01Source(r, s) }})
